@@ -95,6 +95,11 @@ def _tree(draw):
             # '.cap' as a plain file (not the directory of per-file overrides)
             meta[pre + ".cap"] = "not a directory\n"
     meta = {k: v for k, v in meta.items() if k not in files and k not in dirs}
+    if meta and draw(st.integers(0, 3)) == 0:
+        # a byte-order mark in front of a metadata file (written by some editors): whatever the server makes of it, it must
+        # make the same of it in the archive
+        k = draw(st.sampled_from(sorted(meta)))
+        meta[k] = "\xef\xbb\xbf" + meta[k]
     # symlinks
     links = {}
     targets = fl + [d for d in dirs if d]
